@@ -374,3 +374,18 @@ def errno_branches(body, tracer):
             eq, ne = (be["true"], be["false"]) if t.callee.endswith("::eq") else (be["false"], be["true"])
             out.append({"errno": en, "eq": eq, "ne": ne, "bb": be["bb"]})
     return out
+
+
+def failure_edges(body, tracer, call):
+    """(edges taken when `call` returned Err, edges taken when it returned Ok) -- through a match/`?` on the
+    result or through an is_err()/is_ok() probe of it.  None if the result is consumed in another way."""
+    r = result_edges(body, call)
+    if r and r.get("err"):
+        return r["err"], (r.get("all_ok") or r.get("ok") or [])
+    for t in body.calls("std::result::Result::<T, E>::is_err", "std::result::Result::<T, E>::is_ok"):
+        o = tracer.origins_of_arg(t, 0)
+        if o and all(x.kind == "call" and x.term is call for x in o):
+            be = bool_edges(body, t)
+            if be:
+                return (be["true"], be["false"]) if t.callee.endswith("is_err") else (be["false"], be["true"])
+    return None
